@@ -144,10 +144,11 @@ def corpus2(ctx):
     a = np.zeros((41, 41), np.uint8)
     a[::2, ::2] = 1
     b = np.zeros((41, 41), np.uint8)
-    b[4:9, 4:9] = 1
+    b[4, 4] = 1            # three reference components, each identical to one prediction component (no ties)
     b[20, 20] = 1
-    b[30:33, 30:33] = 1
-    one_case(ctx, a, b, E.mk_cfg("SEMANTIC", ["IOU", "DSC"], matcher=E.naive("IOU", (1, 10)), backend="scipy"), "corpus.many-components")
+    b[30, 36] = 1
+    b[21, 21] = 1          # and one that matches nothing (odd position)
+    one_case(ctx, a, b, E.mk_cfg("SEMANTIC", ["IOU", "DSC"], matcher=E.naive("IOU", (1, 2)), backend="scipy"), "corpus.many-components")
 
 
 def run_cases(ctx, n, tag):
